@@ -58,3 +58,22 @@ Example C08_nonvacuous :
   sround 12 10 1 10 = 2 /\ sround 12 10 3 10 = 1 /\ sround (-12) 10 7 10 = -1 /\ sround (-12) 10 9 10 = -2 /\
   sround 20 10 0 1 = 2.
 Proof. vm_compute. repeat split. Qed.
+
+(* ---- stochastic_round as /repo has it now (coq/gen/StochGen.v, regenerated on every run) ---- *)
+From Coq Require Import QArith.
+From QVGen Require StochGen.
+From QV Require Link.StochLink.
+Theorem C08_stoch_translation_ok : StochGen.stoch_translation_ok = true.
+Proof. exact StochLink.link_stoch_ok. Qed.
+(* at precision 1 the code's function is the integer model for every rational input and every draw ... *)
+Theorem C08_code_stochastic_round_is_the_model : forall a p un q,
+  (StochGen.gen_stochastic_round (a # p) (un # q) 1 == inject_Z (sround a (Zpos p) un (Zpos q)))%Q.
+Proof. exact StochLink.link_stochastic_round. Qed.
+Print Assumptions C08_code_stochastic_round_is_the_model.
+(* ... hence the code's result is floor or ceil of its input, for every draw *)
+Theorem C08_code_result_is_floor_or_ceil : forall a p un q,
+  (StochGen.gen_stochastic_round (a # p) (un # q) 1 == inject_Z (a / Zpos p))%Q \/
+  (StochGen.gen_stochastic_round (a # p) (un # q) 1 == inject_Z (qceil a (Zpos p)))%Q.
+Proof. intros. rewrite StochLink.link_stochastic_round.
+  destruct (sround_adjacent a (Zpos p) un (Zpos q)) as [E|E]; [reflexivity| |]; rewrite E; [left|right]; reflexivity. Qed.
+Print Assumptions C08_code_result_is_floor_or_ceil.
